@@ -26,6 +26,12 @@ CHECKS = {
         note="Work is proxied by tokenizer-level counters. The pattern language and thresholds are mine (pinned tree needs 100-600 operations per token).",
         ref="DESIGN.md §4 C18",
     ),
+    "C02": dict(
+        technique="differential testing against CPython's ast.parse on rejected inputs: exhaustive enumeration of short token sequences over a 40-token vocabulary, Hypothesis-drawn structured sequences, and single-token mutations / all token-aligned prefixes of valid programs",
+        text="Exploration with an exhaustive core: every sequence of <=3 (quick) / <=4 (thorough) vocabulary tokens, plus generated near-valid texts inside the Python lexicon; whenever ast.parse raises SyntaxError the parser must not return a tree. Held except listed findings D21 (TabError) and D40 (continuation-first lines).",
+        note="Reference = ast.parse of the running CPython 3.12. Texts outside the Python lexicon are dropped by a regex and counted; the converse direction is C01.",
+        ref="DESIGN.md §4 C02",
+    ),
     "C03": dict(
         technique="fuzzing and property-based testing for totality: Hypothesis character soup with dictionary fragments, token/line mutations and all token-aligned prefixes of Python and xonsh seeds, and coverage-guided atheris/libFuzzer campaigns (empty and seeded corpora) whose target runs the same oracle; failures bucketed by (exception type, innermost peg_parser frame), hangs confirmed in a fresh interpreter",
         text="Exploration: every generated input is pushed through generate_tokens, parse_string (exec and eval) and, for a fraction, parse_file, under a watchdog; the only allowed outcomes are a Module/Expression, SyntaxError or TokenError. Held on everything generated under the harness recursion limit; the default-limit behaviour is listed finding D22.",
